@@ -20,6 +20,14 @@ class P(framework.Prop):
             out.append("parse " + wire.s(gen.render(rng, m)))
             if rng.random() < 0.3:
                 out.append("parse " + wire.s(gen.render(rng, gen.mutate(rng, m))))
+        for _ in range(N // 2):
+            # character-level mutation of a sentence: insert / replace one character
+            text = gen.render(rng, gen.gen_expr(rng, rng.choice([1, 2, 3])))
+            if text:
+                i = rng.randrange(len(text) + 1)
+                ch = rng.choice(CHARS)
+                text = text[:i] + ch + (text[i:] if rng.random() < 0.6 else text[i + 1:])
+            out.append("parse " + wire.s(text))
         for _ in range(N // 4):
             n = rng.randint(1, 7)
             out.append("parse " + wire.s(gen.render(rng, [rng.choice(gen.SOUP) for _ in range(n)])))
@@ -33,7 +41,10 @@ class P(framework.Prop):
         return mobs.startswith("OK")
 
 
-LEX = ["", " ", "a", "-", "-0", "-1", "-01", "a[-0]", "a[2147483647]", "a[2147483648]", "a[-2147483647]", "a[-2147483648]", "a[00]", "a[01]",
+CHARS = ["\u00e9", "\u00b2", "\u0661", "\u4e2d", "\u00a0", "\u03b2", "\U0001f600", "\u2028", "_", "-", "0", "9", "a", "Z", "$", "%", "~", "^", "+", "/", ";", "?",
+         "\\", "\"", "'", "`", " ", "\t", "\n", "\r", "\x0b", "\x00", "\x7f", "=", "<", ">", "!", "&", "|", ".", ",", ":", "(", ")", "[", "]", "{", "}", "*", "@", "#"]
+
+LEX = ["caf\u00e9", "a\u00b2", "a\u0661", "_\u00e9", "a.b\u00e4r", "\u00e9a", "", " ", "a", "-", "-0", "-1", "-01", "a[-0]", "a[2147483647]", "a[2147483648]", "a[-2147483647]", "a[-2147483648]", "a[00]", "a[01]",
        "a[1:2:3]", "a[1:2:3:4]", "a[::]", "a[:]", "a[::0]", "a[ 1 ]", "a[ ]", "[ ]", "[]", "a[ * ]", "a [*]", "a[*", "a[?b", "a[?]", "[?]",
        "'", "'a", "'a\\'", "'a\\'b'", "'\\\\'", "''", "`", "`1", "`1`", "`a`", "`\"a\"`", "`{\"a\":1}`", "`[1,`", "`1``", "`\\``", "` 1 `", "`1 2`",
        "\"", "\"a", "\"a\"", "\"\"", "\"a\\\"b\"", "\"\\u0061\"", "\"\\ud83d\\ude00\"", "\"\\ud83d\"", "\"\\x\"", "\"a\nb\"", "\"a\"(b)", "a.\"b\"",
